@@ -176,6 +176,12 @@ func checkC04(w *World, r *Report) {
 	// recover() itself (recover only works in the deferred function's own frame)
 	recoverDirectRule(w, r, "C04.recover-direct")
 	chanCloseRule(w, r, "C04.chan-close")
+	// the finally body runs in the scope the try form was evaluated in, handed to the deferred function when it is
+	// registered: read from EVAL's variable when it runs, it is whatever the loop assigned since - nil when the
+	// binding of a handler's tail call failed, and the nil scope panics in the deferred function, outside every recover
+	r.include("C04.finally-", "C03.", "the deferred finally evaluation uses the scope it was registered with, never a later (possibly nil) value of the evaluator's scope variable", checkC03, func(rule string) bool {
+		return rule == "C03.finally-scope"
+	})
 	r.rule("C04.try-barrier", "the function or closure that evaluates the body of try starts by deferring a function that calls recover() directly and stores the error into the runner's own result (a panic raised in a try body reaches catch instead of the host)")
 	if m := newEvalModel(w, e); m.ok {
 		if reg, ok := m.regions["try"]; ok {
